@@ -14,6 +14,7 @@ CONSTANTS
   MaxTxs = 1
   AllowEvidence = TRUE
   AllowAbsent = TRUE
+  MaxChecks = 0
   AllowRestart = FALSE
   AllowNoProposer = FALSE
   KnownD8 = TRUE
